@@ -747,17 +747,3 @@ Proof.
     + inversion E; subst. destruct Hc; discriminate.
 Qed.
 
-(** C12, the stray-pointer part of parse_total for ALL passes: whatever byte strings are loaded, if the parser
-    returns (success or its parse error), every []byte in the pool lies inside the image of its table *)
-Theorem parse_slices_inside : forall payloads class t imgs,
-  Forall (fun p => Forall (fun b => b < 256) p /\ N.of_nat (length p) + 2048 <= two32) payloads ->
-  load payloads = (class, t, imgs) -> class = 0 \/ class = 1 -> pool_ok imgs t.
-Proof.
-  intros payloads class t imgs Hall E Hc. unfold load in E.
-  pose proof (CreateDefaultScopes_ok [] 0) as Hd.
-  revert Hd E. generalize (CreateDefaultScopes (@NewObjectTree value) 0). intros o Hd E.
-  destruct o as [t0| |].
-  - eapply load_tables_ok; eauto.
-  - inversion E; subst. destruct Hc; discriminate.
-  - inversion E; subst. destruct Hc; discriminate.
-Qed.
